@@ -64,6 +64,10 @@ Theorem shared_counting_attr_independent : forall w o, is_def o = true -> w_cas 
 Proof. exact counting_attrs_untouched_l. Qed.
 Print Assumptions shared_counting_attr_independent.
 
+Theorem converter_objects_untouched : forall w o, is_def o = true -> w_convs (step w o) = w_convs w.
+Proof. exact converter_objects_untouched_l. Qed.
+Print Assumptions converter_objects_untouched.
+
 (** Classes hold copies (metadata, validator/converter/hook members): whatever happens
     later, the fingerprints of the classes defined so far stay what they were. *)
 Theorem metadata_isolated : forall w ops, Forall outcome_noalias (w_defs w) ->
